@@ -8,6 +8,12 @@ import (
 
 func init() { register(genTransient) }
 
+// isSel2 reports whether n is the selector expression x.name.
+func isSel2(n ast.Node, x, name string) bool {
+	e, ok := n.(ast.Expr)
+	return ok && isSel(e, x, name)
+}
+
 // Facts of transient_data.go (+ the wiring in room.go / hub.go) for C14.
 func genTransient(c *ctx) *leanFile {
 	l := c.newLean("Transient", "transient_data.go", "room.go", "hub.go")
@@ -346,27 +352,41 @@ func genTransient(c *ctx) *leanFile {
 		"AddListener: `if len(t.data) > 0 { … listener.SendMessage(msg) }` (or an unconditional send) not found")
 
 	// --- every exported method is one critical section ----------------------
-	var exported, atomic []string
-	isLock := func(s ast.Stmt) bool {
+	var exported, atomic, listenerLocked []string
+	// t.<mutex>.Lock() / defer t.<mutex>.Unlock(); returns the mutex field name
+	lockOf := func(s ast.Stmt) string {
 		es, ok := s.(*ast.ExprStmt)
 		if !ok {
-			return false
+			return ""
 		}
 		call, ok := es.X.(*ast.CallExpr)
 		if !ok {
-			return false
+			return ""
 		}
 		sel, ok := call.Fun.(*ast.SelectorExpr)
-		return ok && sel.Sel.Name == "Lock" && isSel(sel.X, "t", "mu")
+		if !ok || sel.Sel.Name != "Lock" {
+			return ""
+		}
+		if m, ok := sel.X.(*ast.SelectorExpr); ok && isIdent(m.X, "t") {
+			return m.Sel.Name
+		}
+		return ""
 	}
-	isDeferUnlock := func(s ast.Stmt) bool {
+	deferUnlockOf := func(s ast.Stmt) string {
 		ds, ok := s.(*ast.DeferStmt)
 		if !ok {
-			return false
+			return ""
 		}
 		sel, ok := ds.Call.Fun.(*ast.SelectorExpr)
-		return ok && sel.Sel.Name == "Unlock" && isSel(sel.X, "t", "mu")
+		if !ok || sel.Sel.Name != "Unlock" {
+			return ""
+		}
+		if m, ok := sel.X.(*ast.SelectorExpr); ok && isIdent(m.X, "t") {
+			return m.Sel.Name
+		}
+		return ""
 	}
+	isLock := func(s ast.Stmt) bool { return lockOf(s) == "mu" }
 	// `return t.<Exported>(...)`
 	isDelegation := func(s ast.Stmt) bool {
 		rs, ok := s.(*ast.ReturnStmt)
@@ -399,8 +419,8 @@ func genTransient(c *ctx) *leanFile {
 			switch {
 			case len(b) == 1 && isDelegation(b[0]):
 				atomic = append(atomic, fd.Name.Name)
-			case len(b) >= 2 && isLock(b[0]) && isDeferUnlock(b[1]):
-				// no second Lock further down
+			case len(b) >= 2 && lockOf(b[0]) != "" && lockOf(b[0]) == deferUnlockOf(b[1]):
+				// no second Lock of the store mutex further down
 				again := false
 				for _, s := range b[2:] {
 					ast.Inspect(s, func(m ast.Node) bool {
@@ -412,6 +432,9 @@ func genTransient(c *ctx) *leanFile {
 				}
 				if !again {
 					atomic = append(atomic, fd.Name.Name)
+					if lockOf(b[0]) != "mu" {
+						listenerLocked = append(listenerLocked, fd.Name.Name+":"+lockOf(b[0]))
+					}
 				}
 			}
 		}
@@ -420,6 +443,84 @@ func genTransient(c *ctx) *leanFile {
 	sort.Strings(atomic)
 	l.strList("exportedMethods", exported, len(exported) > 0, "no exported methods of TransientData found")
 	l.strList("atomicMethods", atomic, len(exported) > 0, "no exported methods of TransientData found")
+	sort.Strings(listenerLocked)
+	l.strList("otherLockMethods", listenerLocked, len(exported) > 0, "no exported methods of TransientData found")
+
+	// --- the listener set: every access to t.listeners is inside a t.listenersMu section,
+	// and the functions that send (notifySet / notifyDeleted) are reached only from doSet / doRemove
+	var listenerUsers, unguarded, leafViolations []string
+	var notifyCallers []string
+	if f != nil {
+		for _, d := range f.Decls {
+			fd, ok := d.(*ast.FuncDecl)
+			if !ok || fd.Body == nil || findFunc(f, recv, fd.Name.Name) != fd {
+				continue
+			}
+			uses := false
+			ast.Inspect(fd.Body, func(n ast.Node) bool {
+				if isSel2(n, "t", "listeners") {
+					uses = true
+				}
+				if call, ok := n.(*ast.CallExpr); ok {
+					if sel, ok := call.Fun.(*ast.SelectorExpr); ok && isIdent(sel.X, "t") &&
+						(sel.Sel.Name == "notifySet" || sel.Sel.Name == "notifyDeleted") {
+						notifyCallers = append(notifyCallers, fd.Name.Name+"->"+sel.Sel.Name)
+					}
+				}
+				return true
+			})
+			if !uses {
+				continue
+			}
+			listenerUsers = append(listenerUsers, fd.Name.Name)
+			// guarded: every statement (top level) that mentions t.listeners lies between
+			// t.listenersMu.Lock() and the matching Unlock (deferred or explicit)
+			held := false
+			deferred := false
+			for _, st := range fd.Body.List {
+				if lockOf(st) == "listenersMu" {
+					held = true
+					continue
+				}
+				if deferUnlockOf(st) == "listenersMu" {
+					deferred = true
+					continue
+				}
+				if es, ok := st.(*ast.ExprStmt); ok {
+					if call, ok := es.X.(*ast.CallExpr); ok {
+						if sel, ok := call.Fun.(*ast.SelectorExpr); ok && sel.Sel.Name == "Unlock" {
+							if m, ok := sel.X.(*ast.SelectorExpr); ok && isIdent(m.X, "t") && m.Sel.Name == "listenersMu" && !deferred {
+								held = false
+								continue
+							}
+						}
+					}
+				}
+				mentions := false
+				ast.Inspect(st, func(n ast.Node) bool {
+					if isSel2(n, "t", "listeners") {
+						mentions = true
+					}
+					if call, ok := n.(*ast.CallExpr); ok && held {
+						// while t.listenersMu is held only map / slice builtins may be called
+						if id, ok := call.Fun.(*ast.Ident); !ok || !(id.Name == "make" || id.Name == "delete" || id.Name == "append" || id.Name == "len") {
+							leafViolations = append(leafViolations, fd.Name.Name)
+						}
+					}
+					return true
+				})
+				if mentions && !held {
+					unguarded = append(unguarded, fd.Name.Name)
+				}
+			}
+		}
+	}
+	sort.Strings(listenerUsers)
+	sort.Strings(notifyCallers)
+	l.strList("listenerSetUsers", listenerUsers, f != nil, "transient_data.go not readable")
+	l.strList("listenerSetUnguarded", unguarded, f != nil, "transient_data.go not readable")
+	l.strList("notifyCallers", notifyCallers, f != nil, "transient_data.go not readable")
+	l.strList("listenersMuCallsOut", leafViolations, f != nil, "transient_data.go not readable")
 
 	// --- nil value means remove ---------------------------------------------
 	nilDelegates := func(name, target string) bool {
